@@ -180,4 +180,18 @@ def nabsFields (sites : List NSite) : List Txt :=
 def nmixedFields (sites : List NSite) : List Txt :=
   (nrelFields sites).filter (fun f => (nabsFields sites).contains f)
 
+/-! ## Order of the history objects inside one height (C22) -/
+
+def idxOf (x : Txt) : List Txt → Option Nat
+  | [] => none
+  | y :: ys => if x == y then some 0 else (idxOf x ys).map (· + 1)
+
+/-- for every listed pair `(a, b)` (given by its name in the commit list and its name in the rollback
+    list): `a` is committed before `b` and `b` is rolled back before `a`. -/
+def orderRespects (commit rollback : List Txt) (pairs : List ((Txt × Txt) × (Txt × Txt))) : Bool :=
+  pairs.all (fun p =>
+    match idxOf p.1.1 commit, idxOf p.2.1 commit, idxOf p.1.2 rollback, idxOf p.2.2 rollback with
+    | some ca, some cb, some ra, some rb => ca < cb && rb < ra
+    | _, _, _, _ => false)
+
 end ElaVerif.Sites
